@@ -130,6 +130,20 @@ def run_unit(k, repo, root, build_root, tier):
             return res
     target_dir = _target_dir(root, k, cwd)
     os.makedirs(target_dir, exist_ok=True)
+    # one unit at a time per target directory (two properties share harness groups; concurrent checks must
+    # not run the same harness into the same goto files)
+    import fcntl
+    lock_fh = open(target_dir + ".lock", "w")
+    fcntl.flock(lock_fh, fcntl.LOCK_EX)
+    try:
+        return _run_unit_locked(k, repo, root, build_root, tier, res, t0, harnesses, prefix, full, cwd, target_dir)
+    finally:
+        fcntl.flock(lock_fh, fcntl.LOCK_UN)
+        lock_fh.close()
+
+
+def _run_unit_locked(k, repo, root, build_root, tier, res, t0, harnesses, prefix, full, cwd, target_dir):
+    name = k["name"]
     # trusted-base scan of the harness file(s)
     for hf in k.get("harness_files", []):
         try:
